@@ -31,6 +31,12 @@ PS == { <<>>, <<[k |-> "int", v |-> 1]>>, <<[k |-> "int", v |-> -1], [k |-> "int
         <<[k |-> "str", w |-> 3, mask |-> 5, val |-> 4]>>,
         <<[k |-> "str", w |-> 4, mask |-> 9, val |-> 8], [k |-> "int", v |-> 3]>>,
         <<[k |-> "int", v |-> 15]>>, <<[k |-> "str", w |-> 0, mask |-> 0, val |-> 0]>>,
-        <<[k |-> "str", w |-> 2, mask |-> 2, val |-> 2], [k |-> "str", w |-> 2, mask |-> 3, val |-> 1]>> }
-PS2 == { <<[k |-> "int", v |-> 1]>>, <<[k |-> "str", w |-> 2, mask |-> 2, val |-> 2], [k |-> "int", v |-> -1]>> }
+        <<[k |-> "str", w |-> 2, mask |-> 2, val |-> 2], [k |-> "str", w |-> 2, mask |-> 3, val |-> 1]>>,
+        \* fully specified bit strings (no don't-care) whose leading bit is 1: compared bit by bit, also on signed values
+        <<[k |-> "str", w |-> 1, mask |-> 1, val |-> 1]>>, <<[k |-> "str", w |-> 2, mask |-> 3, val |-> 2]>>,
+        <<[k |-> "str", w |-> 3, mask |-> 7, val |-> 5], [k |-> "str", w |-> 3, mask |-> 7, val |-> 3]>>,
+        <<[k |-> "str", w |-> 4, mask |-> 15, val |-> 10]>>, <<[k |-> "str", w |-> 2, mask |-> 3, val |-> 3]>> }
+PS2 == { <<[k |-> "int", v |-> 1]>>, <<[k |-> "str", w |-> 2, mask |-> 2, val |-> 2], [k |-> "int", v |-> -1]>>,
+         <<[k |-> "str", w |-> 2, mask |-> 3, val |-> 2]>>, <<[k |-> "str", w |-> 1, mask |-> 1, val |-> 1]>>,
+         <<[k |-> "str", w |-> 3, mask |-> 7, val |-> 6]>> }
 ====
